@@ -102,9 +102,15 @@ func vLess(a, b *VEntry, intended bool) bool {
 }
 
 func vInsert(b *[]*VEntry, e *VEntry, intended bool) {
-	i := 0
-	for i < len(*b) && !vLess(e, (*b)[i], intended) {
-		i++
+	// first position whose entry sorts after e (the bucket is sorted: binary search)
+	i, j := 0, len(*b)
+	for i < j {
+		h := (i + j) / 2
+		if vLess(e, (*b)[h], intended) {
+			j = h
+		} else {
+			i = h + 1
+		}
 	}
 	*b = append(*b, nil)
 	copy((*b)[i+1:], (*b)[i:])
